@@ -463,7 +463,8 @@ Lemma wf_args_unpack connect a : wf_args connect a = true ->
   forallb hdr_ok hs = true /\
   has_te hs = false /\
   forallb (fun kv => if bytes_eqb (lower (fst kv)) L_CONTENT_LENGTH
-                     then negb (a_no_cl a) && bytes_eqb (fst kv) K_CONTENT_LENGTH else true) hs = true /\
+                     then negb (a_no_cl a) && bytes_eqb (fst kv) (header_key hs K_CONTENT_LENGTH)
+                     else true) hs = true /\
   (if status_no_body connect (a_status a) then negb (truthy (a_body a)) else true) = true /\
   (if a_no_cl a && negb (status_no_body connect (a_status a)) then a_conn_close a else true) = true.
 Proof.
@@ -473,14 +474,16 @@ Proof.
   repeat split; assumption.
 Qed.
 
+(* the two stages of final_headers *)
+Definition hs0 (a : bargs) : hdrs := hdrs_or_empty (a_headers a).
+Definition hs1 (a : bargs) : hdrs :=
+  if a_no_cl a then hs0 a else dict_set (header_key (hs0 a) K_CONTENT_LENGTH) (cl_value a) (hs0 a).
+
 Lemma final_headers_eq a : has_te (hdrs_or_empty (a_headers a)) = false ->
   final_headers a =
-  let hs := hdrs_or_empty (a_headers a) in
-  let hs := if a_no_cl a then hs
-            else dict_set (header_key hs K_CONTENT_LENGTH) (cl_value a) hs in
-  if a_conn_close a then dict_set (header_key hs K_CONNECTION) V_CLOSE hs else hs.
+  if a_conn_close a then dict_set (header_key (hs1 a) K_CONNECTION) V_CLOSE (hs1 a) else hs1 a.
 Proof.
-  intros Hte. unfold final_headers. cbv zeta. rewrite Hte. cbn [negb andb].
+  intros Hte. unfold final_headers, hs1, hs0. cbv zeta. rewrite Hte. cbn [negb andb].
   destruct (a_no_cl a); reflexivity.
 Qed.
 
@@ -495,18 +498,25 @@ Proof.
   - split; [reflexivity|]. split; vm_compute; reflexivity.
 Qed.
 
+Lemma hs1_ok connect a : wf_args connect a = true -> forallb hdr_ok (hs1 a) = true.
+Proof.
+  intros Hwf. destruct (wf_args_unpack _ _ Hwf) as (_ & _ & _ & _ & _ & Hok & _).
+  destruct (cl_value_facts a) as (C1 & C2 & _).
+  unfold hs1, hs0. destruct (a_no_cl a); [exact Hok|].
+  apply dict_set_forallb; [|exact Hok].
+  unfold hdr_ok. cbn [fst snd]. rewrite (digits_field _ C2).
+  rewrite (header_key_token _ _ Hok); [reflexivity|vm_compute; reflexivity].
+Qed.
+
 Lemma final_headers_ok connect a : wf_args connect a = true ->
   forallb hdr_ok (final_headers a) = true.
 Proof.
-  intros Hwf. destruct (wf_args_unpack _ _ Hwf) as (_ & _ & _ & _ & _ & Hok & Hte & _).
-  rewrite (final_headers_eq a Hte). cbv zeta.
-  destruct (cl_value_facts a) as (C1 & C2 & _).
-  assert (H1 : forallb hdr_ok (if a_no_cl a then hdrs_or_empty (a_headers a)
-              else dict_set K_CONTENT_LENGTH (cl_value a) (hdrs_or_empty (a_headers a))) = true).
-  { destruct (a_no_cl a); [exact Hok|]. apply dict_set_forallb; [|exact Hok].
-    unfold hdr_ok. cbn [fst snd]. rewrite (digits_field _ C2). vm_compute. reflexivity. }
+  intros Hwf. destruct (wf_args_unpack _ _ Hwf) as (_ & _ & _ & _ & _ & _ & Hte & _).
+  rewrite (final_headers_eq a Hte). pose proof (hs1_ok _ _ Hwf) as H1.
   destruct (a_conn_close a); [|exact H1].
-  apply dict_set_forallb; [|exact H1]. vm_compute. reflexivity.
+  apply dict_set_forallb; [|exact H1].
+  unfold hdr_ok. cbn [fst snd].
+  rewrite (header_key_token _ _ H1); vm_compute; reflexivity.
 Qed.
 
 (* ------------------------------------------------------------------ header_values of final_headers *)
@@ -516,21 +526,24 @@ Lemma header_values_q L hs :
   header_values L hs = map snd (filter (fun kv => qkey L (fst kv)) hs).
 Proof. reflexivity. Qed.
 
+Lemma qkey_header_key L hs name : qkey L (header_key hs name) = qkey L name.
+Proof. unfold qkey. rewrite header_key_lower. reflexivity. Qed.
+
 Lemma final_headers_te connect a : wf_args connect a = true ->
   header_values L_TRANSFER_ENCODING (final_headers a) = [].
 Proof.
   intros Hwf. destruct (wf_args_unpack _ _ Hwf) as (_ & _ & _ & _ & _ & _ & Hte & _).
-  rewrite (final_headers_eq a Hte). cbv zeta. rewrite header_values_q.
-  assert (H0 : filter (fun kv => qkey L_TRANSFER_ENCODING (fst kv)) (hdrs_or_empty (a_headers a)) = []).
+  rewrite (final_headers_eq a Hte). rewrite header_values_q.
+  assert (H0 : filter (fun kv => qkey L_TRANSFER_ENCODING (fst kv)) (hs0 a) = []).
   { apply filter_none. apply (existsb_false_forallb _ _ Hte). }
-  assert (H1 : filter (fun kv => qkey L_TRANSFER_ENCODING (fst kv))
-                 (if a_no_cl a then hdrs_or_empty (a_headers a)
-                  else dict_set K_CONTENT_LENGTH (cl_value a) (hdrs_or_empty (a_headers a))) = []).
-  { destruct (a_no_cl a); [exact H0|].
-    rewrite (filter_dict_set_other (qkey L_TRANSFER_ENCODING)); [exact H0|vm_compute; reflexivity]. }
+  assert (H1 : filter (fun kv => qkey L_TRANSFER_ENCODING (fst kv)) (hs1 a) = []).
+  { unfold hs1. destruct (a_no_cl a); [exact H0|].
+    rewrite (filter_dict_set_other (qkey L_TRANSFER_ENCODING)); [exact H0|].
+    rewrite qkey_header_key. vm_compute. reflexivity. }
   destruct (a_conn_close a).
-  - rewrite (filter_dict_set_other (qkey L_TRANSFER_ENCODING)); [|vm_compute; reflexivity].
-    exact (f_equal (map snd) H1).
+  - rewrite (filter_dict_set_other (qkey L_TRANSFER_ENCODING)).
+    + exact (f_equal (map snd) H1).
+    + rewrite qkey_header_key. vm_compute. reflexivity.
   - exact (f_equal (map snd) H1).
 Qed.
 
@@ -538,28 +551,28 @@ Lemma final_headers_cl connect a : wf_args connect a = true ->
   header_values L_CONTENT_LENGTH (final_headers a) = if a_no_cl a then [] else [cl_value a].
 Proof.
   intros Hwf. destruct (wf_args_unpack _ _ Hwf) as (_ & _ & _ & _ & Hnd & _ & Hte & Hcl & _).
-  rewrite (final_headers_eq a Hte). cbv zeta. rewrite header_values_q.
-  assert (H1 : filter (fun kv => qkey L_CONTENT_LENGTH (fst kv))
-                 (if a_no_cl a then hdrs_or_empty (a_headers a)
-                  else dict_set K_CONTENT_LENGTH (cl_value a) (hdrs_or_empty (a_headers a))) =
-               if a_no_cl a then [] else [(K_CONTENT_LENGTH, cl_value a)]).
-  { destruct (a_no_cl a).
+  rewrite (final_headers_eq a Hte). rewrite header_values_q.
+  assert (H1 : filter (fun kv => qkey L_CONTENT_LENGTH (fst kv)) (hs1 a) =
+               if a_no_cl a then []
+               else [(header_key (hs0 a) K_CONTENT_LENGTH, cl_value a)]).
+  { unfold hs1, hs0. destruct (a_no_cl a).
     - apply filter_none. revert Hcl. apply forallb_impl. intros kv Hkv.
       unfold qkey. destruct (bytes_eqb (lower (fst kv)) L_CONTENT_LENGTH); [discriminate Hkv|reflexivity].
-    - apply (filter_dict_set_unique (qkey L_CONTENT_LENGTH)); [vm_compute; reflexivity|exact Hnd|].
-      revert Hcl. apply forallb_impl. intros kv Hkv. unfold qkey.
-      destruct (bytes_eqb (lower (fst kv)) L_CONTENT_LENGTH); [exact Hkv|reflexivity]. }
+    - apply (filter_dict_set_unique (qkey L_CONTENT_LENGTH)).
+      + rewrite qkey_header_key. vm_compute. reflexivity.
+      + exact Hnd.
+      + revert Hcl. apply forallb_impl. intros kv Hkv. unfold qkey.
+        destruct (bytes_eqb (lower (fst kv)) L_CONTENT_LENGTH); [exact Hkv|reflexivity]. }
   assert (H2 : filter (fun kv => qkey L_CONTENT_LENGTH (fst kv))
                  (if a_conn_close a
-                  then dict_set K_CONNECTION V_CLOSE
-                         (if a_no_cl a then hdrs_or_empty (a_headers a)
-                          else dict_set K_CONTENT_LENGTH (cl_value a) (hdrs_or_empty (a_headers a)))
-                  else (if a_no_cl a then hdrs_or_empty (a_headers a)
-                        else dict_set K_CONTENT_LENGTH (cl_value a) (hdrs_or_empty (a_headers a)))) =
-               if a_no_cl a then [] else [(K_CONTENT_LENGTH, cl_value a)]).
+                  then dict_set (header_key (hs1 a) K_CONNECTION) V_CLOSE (hs1 a) else hs1 a) =
+               if a_no_cl a then []
+               else [(header_key (hs0 a) K_CONTENT_LENGTH, cl_value a)]).
   { destruct (a_conn_close a); [|exact H1].
-    rewrite (filter_dict_set_other (qkey L_CONTENT_LENGTH)); [exact H1|vm_compute; reflexivity]. }
-  transitivity (map snd (if a_no_cl a then [] else [(K_CONTENT_LENGTH, cl_value a)])).
+    rewrite (filter_dict_set_other (qkey L_CONTENT_LENGTH)); [exact H1|].
+    rewrite qkey_header_key. vm_compute. reflexivity. }
+  transitivity (map snd (if a_no_cl a then []
+                         else [(header_key (hs0 a) K_CONTENT_LENGTH, cl_value a)])).
   - exact (f_equal (map snd) H2).
   - destruct (a_no_cl a); reflexivity.
 Qed.
@@ -568,9 +581,11 @@ Lemma final_headers_close a : has_te (hdrs_or_empty (a_headers a)) = false ->
   a_conn_close a = true ->
   In V_CLOSE (header_values L_CONNECTION (final_headers a)).
 Proof.
-  intros Hte Hcc. rewrite (final_headers_eq a Hte). cbv zeta. rewrite Hcc.
-  unfold header_values. apply in_map_iff. exists (K_CONNECTION, V_CLOSE). split; [reflexivity|].
-  apply filter_In. split; [apply dict_set_In|vm_compute; reflexivity].
+  intros Hte Hcc. rewrite (final_headers_eq a Hte). rewrite Hcc.
+  unfold header_values. apply in_map_iff.
+  exists (header_key (hs1 a) K_CONNECTION, V_CLOSE). split; [reflexivity|].
+  apply filter_In. split; [apply dict_set_In|].
+  cbn [fst]. rewrite header_key_lower. vm_compute. reflexivity.
 Qed.
 
 Lemma has_conn_close_final a : has_te (hdrs_or_empty (a_headers a)) = false ->
@@ -700,3 +715,25 @@ Print Assumptions dec_of_N_digits.
 Print Assumptions build_http_response_recognised.
 Print Assumptions build_http_response_wf.
 Print Assumptions build_http_response_wf_strict.
+
+(* ------------------------------------------------------------------ link with Http/Builders.v *)
+From PM Require Http.Builders.
+
+Lemma header_lines_render (h : hdrs) : PM.Http.Builders.header_lines h = concat (map render h).
+Proof.
+  induction h as [|[k v] h IH]; [reflexivity|].
+  cbn [PM.Http.Builders.header_lines map concat]. rewrite IH.
+  unfold render. cbn [fst snd]. rewrite <- app_assoc. reflexivity.
+Qed.
+
+Lemma build_http_response_is_Builders a :
+  build_http_response a =
+  PM.Http.Builders.build_http_response (a_status a) (a_version a) (a_reason a) (a_headers a)
+    (a_body a) (a_conn_close a) (a_no_cl a).
+Proof.
+  rewrite build_shape.
+  unfold PM.Http.Builders.build_http_response, PM.Http.Builders.build_http_pkt. cbv zeta.
+  rewrite header_lines_render. reflexivity.
+Qed.
+
+Print Assumptions build_http_response_is_Builders.
